@@ -1,8 +1,8 @@
 (* Extraction of the executable model to OCaml (run from /verif/ocaml/gen). *)
 From Coq Require Import Extraction ExtrOcamlBasic.
-From GV Require Import Base.Util Base.NMap Circuit.Ssa Circuit.Reg Circuit.RegAlloc
+From GV Require Import Base.Util Base.NMap Circuit.Ssa Circuit.Reg Circuit.RegAlloc Circuit.Bristol
   Builder.Builder Builder.Build Gadgets.Gadgets
-  Lang.Types Lang.Literal Exhaust.Pat Exhaust.Covers.
+  Lang.Types Lang.Literal Exhaust.Pat Exhaust.Covers Lang.Ast Lang.Sem.
 Extraction Language OCaml.
 Set Extraction AccessOpaque.
 Separate Extraction
@@ -20,4 +20,6 @@ Separate Extraction
   Types.resolve_defs Types.resolve_ty Types.empty_env Types.size Types.wf
   Literal.is_of_type Literal.as_bits Literal.from_bits Literal.denote Literal.has_type
   Pat.has_type Pat.pat_matches Pat.pat_wt Pat.select_arm
-  Covers.covers Covers.uncovered Covers.witness_ok Covers.region_reps.
+  Covers.covers Covers.uncovered Covers.witness_ok Covers.region_reps
+  Sem.run_main
+  Bristol.export Bristol.import Bristol.USIZE_MAX.
